@@ -9,7 +9,7 @@ BASE_NOTE = ("Trusted: NumPy/SciPy/LAPACK/opt_einsum; CPython semantics of the p
 
 CHECKS = {
     "C19": dict(cat="proof", ref="DESIGN §8 C19",
-                text="Every obligation (94 Butcher order conditions, row sums, lower-triangularity, stage-polynomial identity, Taylor "
+                text="Plus two closed checks on the real objects: the tableau delivered through EvolveConfig (every method x adaptive on/off) satisfies the conditions of the order it advertises, and the derived expansion is unaffected by in-place changes of an earlier result. Every obligation (94 Butcher order conditions, row sums, lower-triangularity, stage-polynomial identity, Taylor "
                      "coefficients) is generated from the current source of rk.py by exact symbolic execution and discharged by z3; "
                      "complete for the ten shipped methods.",
                 technique="contract-based deductive verification: exact symbolic execution of the real source + z3 (ground rational and NRA obligations)",
@@ -30,14 +30,14 @@ CHECKS = {
 OTHER_NOTE = BASE_NOTE + " Numeric clauses are runtime contracts against independent dense references on bounded inputs (labelled bounded, never counted as proved)."
 CHECKS.update({
     "C03": dict(cat="other", ref="DESIGN §8 C03, App. A.4",
-                text="The lemma that QN-valid labels confine the dense object to the sector qntot is mechanised (inductions over the site index discharged by z3), not cited. "
+                text="Also bounded: single product operators (hopping terms of bond dimension one) applied and used further, the overlap modulus (angle), bra-ket pairs with prefactors. The lemma that QN-valid labels confine the dense object to the sector qntot is mechanised (inductions over the site index discharged by z3), not cited. "
                      "move_qnidx proved to preserve the QN-valid invariant for all sizes/labels/tensor contents (pyvc, z3); all arithmetic contracts "
                      "(dense sum/product/adjoint/overlap, QN-valid result, correct after later canonicalise/compress, operands untouched) evaluated on "
                      "bounded-exhaustive gauge histories against an independent dense contraction.",
                 technique="contract-based deductive verification (pyvc VCs with loop invariants, z3) for the label bookkeeping; runtime contracts on the real methods as bounded stand-in",
                 note=OTHER_NOTE),
     "C04": dict(cat="other", ref="DESIGN §8 C04, App. A.3",
-                text="Variational compression (Engine S): with the renormalised-basis update recorded, every local tensor handed to it equals mask * K^H (O psi) for the frames K of the guess at that moment, one update per site in sweep order, each posed in the guess the previous one produced; state and operator unchanged. "
+                text="Also bounded: default-start variational compression of an operator wider than the start size (converges; operator and state untouched). Variational compression (Engine S): with the renormalised-basis update recorded, every local tensor handed to it equals mask * K^H (O psi) for the frames K of the guess at that moment, one update per site in sweep order, each posed in the guess the previous one produced; state and operator unchanged. "
                      "canonicalise's sweep/centre/direction discipline proved for all chain lengths and stop sites from the current source (pyvc: loop invariant, "
                      "inlined iter_idx_list/_switch_direction, _push_cano by contract); Engine S kernel-stub mode: canonicalise / ensure_* / partial sweeps / lossless compress "
                      "around trivially factorised blocks leave the represented object and the labels unchanged for all tensor values (states, sums, operator images, operators, "
@@ -59,7 +59,7 @@ CHECKS.update({
                 technique="contract-based deductive verification (pyvc, z3; call by contract; induction lemmas) + theorem-derived runtime contracts as bounded stand-in",
                 note=OTHER_NOTE + " Cited lemmas: Eckart-Young, TT-SVD quasi-optimality. Assumed: scipy.linalg.norm >= 0."),
     "C06": dict(cat="other", ref="DESIGN §8 C06",
-                text="QN-valid labels imply that every non-zero product term carries total charge qntot: mechanised as z3 inductions over the site index (prefix / suffix sums, closing step at the centre) for every chain length, centre, label table and support. "
+                text="Also bounded: TTNS product states from a condition on multi-dof nodes, Mps.ground_state reference states. QN-valid labels imply that every non-zero product term carries total charge qntot: mechanised as z3 inductions over the site index (prefix / suffix sums, closing step at the centre) for every chain length, centre, label table and support. "
                      "QN-valid representation invariant: proved preserved by move_qnidx for all sizes (pyvc); decided exactly by Engine S, for all tensor values per enumerated "
                      "shape, for sums / differences / operator images incl. charged operators (sector shift) / adjoints and, in kernel-stub mode, for canonicalise, ensure_*, "
                      "partial sweeps and lossless compression of states, operators and density operators; audited after every step of random operation histories "
@@ -76,7 +76,7 @@ CHECKS.update({
                           "postcondition) evaluated at run time on the real construction functions (bounded stand-in)",
                 note=OTHER_NOTE),
     "C02": dict(cat="other", ref="DESIGN §8 C02, App. A.8",
-                text="approximate_partition proved for all inputs (pyvc: consecutive covering slices incl. the floor-division fact) so the partition-based tree "
+                text="Also bounded: oscillator-only trees (same class and size, different parameters on one node) with a full vibrational Hamiltonian. approximate_partition proved for all inputs (pyvc: consecutive covering slices incl. the floor-division fact) so the partition-based tree "
                      "constructors keep every basis set once; TTNO construction checked by runtime contracts (independent tree contraction == dense sum == chain MPO, "
                      "QN-valid, topology independence) over enumerated tree shapes, groupings, dummy placements and the named constructors; Engine S: "
                      "construct_symbolic_ttno executed with indeterminate coefficients on every rooted ordered tree shape of the universe (exact, all coefficient values).",
@@ -84,14 +84,14 @@ CHECKS.update({
                           "coefficients; runtime contracts as bounded stand-in for the numeric construction",
                 note=OTHER_NOTE + " print_tree shim is part of the trusted base; complex operators are outside TTNO's documented domain."),
     "C07": dict(cat="other", ref="DESIGN §8 C07",
-                text="Exact symbolic execution of the real expectation / expectations code decides, per enumerated shape and operator list, that the cached fast path, "
+                text="Also bounded: a second measurement after an in-place change of the measured object. Exact symbolic execution of the real expectation / expectations code decides, per enumerated shape and operator list, that the cached fast path, "
                      "the one-by-one path and the dense sesquilinear form are the same polynomial (all tensor values, bra != ket), and that the one- and two-site RDMs of states and "
                      "density operators are the partial traces of psi psi^+ / A A^+; occupations, the electronic RDM and entropies are "
                      "runtime contracts against the dense vector.",
                 technique="contracts decided exactly by symbolic execution of the real code (polynomial identities) + runtime contracts as bounded stand-in",
                 note=OTHER_NOTE + " Shims of the symbolic runs are listed in evidence."),
     "C08": dict(cat="other", ref="DESIGN §8 C08, S.2",
-                text="Call by contract at the local eigensolver: with gs.eigh_direct replaced by a recording stub that returns an arbitrary eigenvector, the real single_sweep (1site / 2site, both directions, with and without the target omega) poses one eigenproblem per site in sweep order, each matrix equals J^H H J (resp. J^H (H-omega)^2 J) for the frames of the state held at that moment, each problem is posed in the state the previous update produced, the reported energies are the eigensolver's and the state handed back carries the eigenvector of the requested site - exact for all tensor values. The same on trees (tn.gs.optimize_ttns on every tree shape: two-site problem on every bond around every subtree; stub at eigh_iterative). A numeric pass with the real kernels adds what the stubs cannot decide: the frames of every local problem are orthonormal (bounded). "
+                text="Also: state-averaged sweeps (several roots) and StackedMpo Hamiltonians in the sweep contract; bounded cases with StackedMpo operators, omega targeting on operators that differ from their model's own Hamiltonian, and on-the-fly swapping switched on (the optimiser contract of C17). Call by contract at the local eigensolver: with gs.eigh_direct replaced by a recording stub that returns an arbitrary eigenvector, the real single_sweep (1site / 2site, both directions, with and without the target omega) poses one eigenproblem per site in sweep order, each matrix equals J^H H J (resp. J^H (H-omega)^2 J) for the frames of the state held at that moment, each problem is posed in the state the previous update produced, the reported energies are the eigensolver's and the state handed back carries the eigenvector of the requested site - exact for all tensor values. The same on trees (tn.gs.optimize_ttns on every tree shape: two-site problem on every bond around every subtree; stub at eigh_iterative). A numeric pass with the real kernels adds what the stubs cannot decide: the frames of every local problem are orthonormal (bounded). "
                      "Engine S kernel-stub mode: the renormalised-basis update of the two-site algorithm (_update_mps: svd_qn -> compute_m_trunc -> select_basis -> write back), single root with "
                      "and without the per-sector perturbation and state-averaged (every root reproduced by the kept basis), loses nothing and keeps the labels valid for all tensor values. "
                      "Engine S: for symbolic chain states (any tensors) the matrix the optimiser diagonalises at every site (1-site) and every pair of sites (2-site) - "
@@ -103,7 +103,7 @@ CHECKS.update({
                           "variational theorem on the real optimiser over bounded inputs (bounded stand-in for the eigensolver / convergence clauses)",
                 note=OTHER_NOTE),
     "C09": dict(cat="other", ref="DESIGN §8 C09, S.2",
-                text="Call by contract at the local propagator: with expm_krylov / solve_ivp replaced by recording stubs that return arbitrary vectors, the real _evolve_tdvp_ps and _evolve_tdvp_ps2 pose exactly the local problems of the projector-splitting integrator - schedule, generator x time = -+i dt/2 J^H H J against an independent frame contraction, start vector, continuity - exact polynomial identities for all states and all kernel results of the enumerated shapes, Krylov and ODE form, replayed natively with the real kernels. "
+                text="Also bounded: the documented switches of the variational schemes (force_ovlp off/on at tight solver tolerances, CMF trapezoidal / no mid-point) and backward propagation (negative real step) for every scheme and both local solvers. Call by contract at the local propagator: with expm_krylov / solve_ivp replaced by recording stubs that return arbitrary vectors, the real _evolve_tdvp_ps and _evolve_tdvp_ps2 pose exactly the local problems of the projector-splitting integrator - schedule, generator x time = -+i dt/2 J^H H J against an independent frame contraction, start vector, continuity - exact polynomial identities for all states and all kernel results of the enumerated shapes, Krylov and ODE form, replayed natively with the real kernels. "
                      "Engine S (kernel-stub mode): the real _evolve_prop_and_compress (Taylor orders 1..7), _tdrk4 and _tdrk (all eight single-row tableaux) run on symbolic states with "
                      "lossless compressions; the dense result equals sum_k d_k (-i dt H)^k psi with d_k computed from the tableau in rational arithmetic (C19 certifies d_k = 1/k! "
                      "up to the order), and for H(t) the exact explicit Runge-Kutta recursion with absolute stage times - for all states of the enumerated shapes, states with the "
@@ -114,7 +114,7 @@ CHECKS.update({
                           "theorem-derived bounds on every scheme (bounded stand-in for the floating-point clauses)",
                 note=OTHER_NOTE),
     "C10": dict(cat="other", ref="DESIGN §8 C10, S.2",
-                text="The imaginary-time branch of TDVP-PS / PS2 poses exactly the local problems of the projector-splitting integrator for exp(-tau H) (call by contract at expm_krylov / solve_ivp, Engine S, both local solver forms). "
+                text="Also bounded: an exact thermal job continued with a different step size. The imaginary-time branch of TDVP-PS / PS2 poses exactly the local problems of the projector-splitting integrator for exp(-tau H) (call by contract at expm_krylov / solve_ivp, Engine S, both local solver forms). "
                      "Engine S (kernel-stub mode): for imaginary time steps the un-normalised result of every propagation-and-compression scheme equals the stage polynomial in "
                      "(-tau H) applied to the state or density operator, exactly, for all tensor values of the enumerated shapes (the normalisation and the TDVP schemes are bounded). "
                      "Imaginary-time branch of every scheme vs normalised expm(-tau H)psi, exact local propagator incl. shift / phase / frame bookkeeping, purified "
@@ -123,7 +123,7 @@ CHECKS.update({
                           "averages (bounded stand-in)",
                 note=OTHER_NOTE),
     "C14": dict(cat="fault_enumeration", ref="DESIGN §8 C14, App. A.6",
-                text="Crash safety of TdMpsJob.dump_dict proved over a ghost file-system model from EVERY admissible directory state (pyvc: invariant obligation at each "
+                text="Also bounded: files of the older protocols 0.3, 0.2 and 0.1 and a ten-site chain (two-digit per-bond entries). Crash safety of TdMpsJob.dump_dict proved over a ghost file-system model from EVERY admissible directory state (pyvc: invariant obligation at each "
                      "file-system call and inside np.savez; counter-models replayed by fault injection into the real function) and cross-validated by exhaustive fault "
                      "enumeration on the real code incl. restarts and swallowed IOErrors; Engine S with a file-layer stub: load(dump(x)) == x for indeterminate tensors and prefactor "
                      "(Mps, MpDm, Mpo, TTNS incl. other_attrs); exact bitwise dump/load round trips on real files for Mps, MpDm, Mpo, TTNS and the spill-to-disk path.",
@@ -182,7 +182,7 @@ CHECKS.update({
                           "theorem-derived bounds on the real tree evolution code (bounded stand-in for the TDVP / floating-point clauses)",
                 note=OTHER_NOTE + " print_tree shim is part of the trusted base."),
     "C13": dict(cat="other", ref="DESIGN §8 C13, App. A.7, S.2",
-                text="Static modifies clauses for ~70 public state-producing / measuring methods of chains, trees, operators and density operators: an alias/effect "
+                text="Round 7: 25 more entry points under clauses (expand_bond_dimension and its helper, entropies, mutual information, dumps, canonicity checks, BraKetPair, ThermalProp steps) plus runtime frame clauses for expand_bond_dimension. Static modifies clauses for ~70 public state-producing / measuring methods of chains, trees, operators and density operators: an alias/effect "
                      "analysis of the current source lists every write through a parameter alias and every in-place call on one; each must be covered by the method's "
                      "clause (gauge move by callee contract, configuration field, or a stated joint rewrite such as prefactor folding). Frame contracts (represented "
                      "vector, total charge, label validity of every live object; in-place mutation of a result or of an input does not leak) evaluated after every step "
